@@ -5,6 +5,7 @@ import PestModel.Lemmas.ReaderAgree
 import PestModel.Lemmas.OptTotal
 import PestModel.Thm.C07Pairs
 import PestModel.Lemmas.PipelineNoPanic
+import PestModel.Lemmas.PipelineLocated
 /-!
 # C09 — the grammar front-end is total
 
@@ -161,5 +162,13 @@ theorem skipper_bounded (rules : List Rule) (e : Expr) (l : List PestModel.LineC
 example : skipF [⟨"c0", .normal, .choice (.ident "c1") (.ident "c1")⟩, ⟨"c1", .normal, .choice (.ident "c2") (.ident "c2")⟩,
     ⟨"c2", .normal, .choice (.ident "c3") (.ident "c3")⟩, ⟨"c3", .normal, .str ['a']⟩]
     (.rep (.seq (.negPred (.ident "c0")) (.ident "ANY"))) = .skip (List.replicate 8 ['a']) := by decide
+
+/-- **The name errors are located**: every error `validate_pairs` reports (a keyword used as a rule name, a rule defined twice,
+an undefined rule) is about a pair of the parse — a definition or a used identifier — whose text it quotes; that pair's span, a slice
+of the grammar text (`RefSliced.meaning_sliced`), is the error's location. -/
+theorem name_errors_located (text : PestModel.LineCol.Str) (forest : List PestModel.Views.Tree) (errs : List (String × String))
+    (h : PestModel.Pipeline.validatePairs text forest = .ok errs) :
+    ∀ e ∈ errs, ∃ t ∈ PestModel.Views.preorderList forest, (PestModel.ReaderFull.strOf text t).map String.ofList = some e.2 :=
+  PestModel.Pipeline.validatePairs_located h
 
 end PestModel.C09
